@@ -377,6 +377,14 @@ class Peer:
     def handle_connection(self, connection: 'Incoming') -> Iterator[bool] | None:
         log.debug(lazymsg('peer.fsm.state state={s}', s=self.fsm.name()), self.id())
 
+        # a peer which is being stopped (neighbor removed, shutdown) will never look at the connection
+        if self._teardown and not self._restart:
+            log.debug(
+                lazymsg('peer.connection.rejected connection={c} reason=peer_stopping', c=connection.name()),
+                self.id(),
+            )
+            return connection.notification(6, 3, b'could not accept the connection, the peer is being de-configured')
+
         # if the other side fails, we go back to idle
         if self.fsm == FSM.ESTABLISHED:
             log.debug(
